@@ -104,6 +104,7 @@ def newDiagonal (mat : List Rat) (vars : List Nat) : Res Interaction :=
   | none => .err
   | some n =>
     if vars.isEmpty then .err else
+    if ¬ vars.Nodup then .err else   -- fix F26: a variable listed twice is rejected
     let cd := chainConst mat
     if n = vars.length then
       .ok { itype := .diagonal, mat := mat, n := n, vars := vars, constDiag := cd }
@@ -122,6 +123,7 @@ def new (mat : List Rat) (vars : List Nat) : Res Interaction :=
   | none => .err
   | some n =>
     if vars.isEmpty then .err else
+    if ¬ vars.Nodup then .err else   -- fix F26: a variable listed twice is rejected
     if n ≠ vars.length then .err else
     let constant := chainConst mat
     match mapP (List.range (2 ^ n)) (fun row => getP mat (row * 2 ^ n + row)) with
